@@ -4,21 +4,22 @@ From PG Require Import Lib.Strs Corr.Driver Model.Cycle.
 
 Definition nlen {A} (l : list A) : N := N.of_nat (length l).
 
-(* A snapshot is compared through its small fields plus a polynomial hash (mod the Mersenne prime 2^61-1) of
-   the complete stack, state dictionary (insertion order) and parsed_schemas key list; the harness computes the
-   same hash from the implementation's snapshot.  (Shipping the full lists made shard files of several MB.) *)
-Definition HM : N := 2305843009213693951.
-Definition hstep (h x : N) : N := (h * 1000003 + x + 1) mod HM.
-Definition hstr (h : N) (s : str) : N := hstep (fold_left hstep s h) 1114112.
-Definition hsnap (c : ctx) : N :=
-  let h1 := fold_left hstr (stack c) 7 in
+(* A snapshot is compared through its small fields plus an order-sensitive checksum of the complete stack,
+   state dictionary (insertion order) and parsed_schemas key list (Adler/Fletcher style without modulus:
+   a := a + x + 1; b := b + a over all code points, with separators; only additions, because N.modulo under
+   vm_compute costs ~60us and a 150-schema chain has ~10^6 code points to digest).  The harness computes the
+   same pair from the implementation's snapshot.  Shipping the full lists made shard files of several MB. *)
+Definition hstep (h : N * N) (x : N) : N * N := let a := fst h + x + 1 in (a, snd h + a).
+Definition hstr (h : N * N) (s : str) : N * N := hstep (fold_left hstep s h) 1114112.
+Definition hsnap (c : ctx) : N * N :=
+  let h1 := fold_left hstr (stack c) (7, 0) in
   let h2 := fold_left (fun h kv => hstep (hstr h (fst kv)) (sstate_code (snd kv))) (states c) (hstep h1 1114113) in
   fold_left hstr (parsed c) (hstep h2 1114113).
 
 Definition enc (e : event) : list N :=
   let '(k, a, c) := e in
   [k; a; depth c; g_nest c; nlen (cycles c); nlen (concat (cycles c)); (if flag c then 1 else 0); nlen (exceeded c);
-   nlen (stack c); nlen (states c); nlen (parsed c); hsnap c].
+   nlen (stack c); nlen (states c); nlen (parsed c); fst (hsnap c); snd (hsnap c)].
 
 (* input: configured depth limit, top-level items in execution order, truncated?,
    declared top-level aliases (name, target) *)
